@@ -6,6 +6,7 @@
   M4riProofs/GaussOK.lean when present).
 -/
 import M4riProofs.Trsm
+import M4riProofs.GaussOK
 namespace M4ri.Props.C05
 open M4ri M4ri.BMat
 
@@ -21,6 +22,24 @@ theorem inverse_spec_partial {A Binv : BMat} (hA : A.WF) (hsq : A.ncols = A.nrow
     (hrref : (A.concat (identity A.nrows)).rref.isRREF = true) :
     inverseSpec A = Binv ∧ (inverseSpec A).mul A = identity A.nrows ∧ A.mul (inverseSpec A) = identity A.nrows :=
   inverseSpec_spec hA hsq hB hBr hBc hAB hrow hrref
+
+/-- Four-Russians / naive inversion are compared with `inverseSpec A`: it IS the inverse of every invertible `A` -/
+theorem inverse_of_invertible {A Binv : BMat} (hA : A.WF) (hsq : A.ncols = A.nrows) (hB : Binv.WF)
+    (hBr : Binv.nrows = A.nrows) (hBc : Binv.ncols = A.nrows) (hAB : A.mul Binv = identity A.nrows) :
+    inverseSpec A = Binv ∧ (inverseSpec A).mul A = identity A.nrows ∧ A.mul (inverseSpec A) = identity A.nrows :=
+  GOK.inverse_spec hA hsq hB hBr hBc hAB
+
+/-- the naive routine (exact mirror), given an identity matrix, returns the same inverse -/
+theorem invert_naive {A Ainv : BMat} (hA : A.WF) (hsq : A.ncols = A.nrows) (hn : 1 ≤ A.nrows) (hB : Ainv.WF)
+    (hBr : Ainv.nrows = A.nrows) (hBc : Ainv.ncols = A.nrows) (hAB : A.mul Ainv = identity A.nrows) :
+    invertNaive A (identity A.nrows) = some Ainv ∧ Ainv.mul A = identity A.nrows :=
+  GOK.invert_naive_spec hA hsq hn hB hBr hBc hAB
+
+/-- in-place inversion of a unit upper-triangular matrix: the value it is compared with is `triInv` -/
+theorem tri_inverse_value {U : BMat} (hU : U.WF) (hsq : U.ncols = U.nrows) (hut : unitUpper U = U) :
+    inverseSpec U = triInv U ∧ unitUpper (inverseSpec U) = inverseSpec U ∧
+    (inverseSpec U).mul U = identity U.nrows ∧ U.mul (inverseSpec U) = identity U.nrows :=
+  GOK.inverse_unit_upper hU hsq hut
 
 #check @M4ri.BMat.triInv_unique_left
 #check @M4ri.BMat.triInv_unique_right
